@@ -411,7 +411,7 @@ def checkC11 (steps : List Step) : Option (Nat × String) := Id.run do
       match parseDec i, (fields attrs).lookup "mac" with
       | some I, some m => match parseFixed m 6 with | some mac => macs := upd macs I mac | none => pure ()
       | _, _ => pure ()
-    | ["ev", i, hex, av, tb] =>
+    | ["ev", i, hex, av, tb] | ["ev", i, hex, av, tb, _] =>
       match parseDec i, parseHex hex, parseDec (av.drop 6).toString with
       | some I, some frame, some avail =>
         let our := (macs.lookup I).getD zeroMac
